@@ -27,14 +27,20 @@ HEAD_NAMES = {
 SAME_REL = 1e-3  # two tensors are "the same value" when max|a-b| <= SAME_REL * max(|a|,|b|) (DESIGN 1.3: allclose classes)
 
 
+def in_channels_of(c):
+    """grey-scale or RGB input (a harness-level variation: the property's shapes and strides do not depend on it)"""
+    return 3 if c.get("id", 0) % 3 == 2 else 1
+
+
 def configs(c):
     """(backbone_config, head_configs) OmegaConf objects, laid out like tests/architectures/test_model.py."""
     from omegaconf import OmegaConf
 
+    ich = in_channels_of(c)
     rate = c["fr"][0] / c["fr"][1]
     if c["bb"] == "unet":
         bcfg = {
-            "in_channels": 1, "kernel_size": 3, "filters": c["f"], "filters_rate": rate,
+            "in_channels": ich, "kernel_size": 3, "filters": c["f"], "filters_rate": rate,
             "max_stride": c["ms"], "convs_per_block": c["cpb"], "stacks": 1,
             "stem_stride": (c["stem"] or None), "middle_block": bool(c["mid"]),
             "up_interpolate": bool(c["upi"]), "output_stride": c["os"],
@@ -42,7 +48,7 @@ def configs(c):
     elif c["bb"] == "convnext":
         tiny = c["arch"] == "tiny"
         bcfg = {
-            "in_channels": 1, "model_type": "tiny" if tiny else "custom",
+            "in_channels": ich, "model_type": "tiny" if tiny else "custom",
             "arch": None if tiny else {"depths": [1, 1, 1, 1], "channels": [c["f"] * 2 ** k for k in range(4)]},
             "kernel_size": 3, "filters_rate": rate, "convs_per_block": c["cpb"],
             "up_interpolate": bool(c["upi"]), "stem_patch_kernel": 4, "stem_patch_stride": c["stem"],
@@ -51,7 +57,7 @@ def configs(c):
     elif c["bb"] == "swint":
         tiny = c["arch"] == "tiny"
         bcfg = {
-            "in_channels": 1, "model_type": "tiny" if tiny else "custom",
+            "in_channels": ich, "model_type": "tiny" if tiny else "custom",
             "arch": None if tiny else {"embed": c["f"], "depths": [1, 1, 1, 1], "num_heads": [1, 2, 4, 8]},
             "patch_size": [4, 4], "window_size": [7, 7], "kernel_size": 3, "filters_rate": rate,
             "convs_per_block": c["cpb"], "up_interpolate": bool(c["upi"]),
@@ -163,7 +169,7 @@ def observe(c, seed=0, keep=None):
     try:
         bcfg, hcfg = configs(c)
         model = Model(backbone_type=c["bb"], backbone_config=bcfg, head_configs=hcfg,
-                      input_expand_channels=1, model_type=c["mt"])
+                      input_expand_channels=in_channels_of(c), model_type=c["mt"])
         model.eval()
         b["nblocks"] = len(model.backbone.dec.decoder_stack)
         b["strides"] = [int(s) for s in model.backbone.dec.current_strides]
@@ -185,7 +191,7 @@ def observe(c, seed=0, keep=None):
     for fid in sorted({i for ids in calls for i in ids}):
         h, w = frame_size(c, fid)
         # different brightness per frame, so that statistics shared across a batch would show
-        imgs[fid] = torch.rand((1, h, w), generator=g) * (0.55, 0.8, 1.0)[(fid - 1) % 3]
+        imgs[fid] = torch.rand((in_channels_of(c), h, w), generator=g) * (0.55, 0.8, 1.0)[(fid - 1) % 3]
     plan = [("call", ids, model) for ids in calls]
     if c.get("fresh"):
         import copy
